@@ -292,8 +292,18 @@ def build_landscape_call(spec, fx, M, D):
             return Exact(dgms=d2, hom_deg=hd, compute=comp)
         return Approx(dgms=d2, hom_deg=hd, start=lo, stop=hi, num_steps=ns, compute=comp)
 
+    pre = None
+    if what in ("add", "sub") and comp:
+        # the operands are objects the caller built beforehand and keeps: they are arguments of the call
+        with contextlib.redirect_stdout(io.StringIO()):
+            pre = (mk(0), mk(1))
+            pre[0].compute_landscape()
+            pre[1].compute_landscape()
+
     def call():
-        a = mk(0)
+        a = mk(0) if pre is None else pre[0]
+        if pre is not None:
+            return (a + pre[1]) if what == "add" else (a - pre[1])
         if what == "build":
             a.compute_landscape()
             return a
@@ -339,7 +349,7 @@ def build_landscape_call(spec, fx, M, D):
                 return tools.lc_approx([a, b], [2.0, -1.0])
             return tools.average_approx([a, b])
         raise InvalidCase("what")
-    return call, [dg], None
+    return call, ([dg] if pre is None else [dg, pre[0], pre[1]]), None
 
 
 def build_plot_call(spec, fx, M, D):
@@ -641,6 +651,14 @@ def same(a, b, rel=1e-12, path=""):
     return None if a == b else (path or ".")
 
 
+def json_like(v):
+    if isinstance(v, (list, tuple)):
+        return [json_like(x) for x in v]
+    if isinstance(v, np.ndarray):
+        return v.tolist()
+    return float(v) if isinstance(v, (int, float, np.integer, np.floating)) else repr(v)
+
+
 def digest_args(args):
     """Byte-level digest source of the arguments of a call."""
     import hashlib
@@ -659,6 +677,14 @@ def digest_args(args):
             for k in sorted(v):
                 h.update(repr(k).encode())
                 walk(v[k])
+        elif type(v).__name__ in ("PersLandscapeApprox", "PersLandscapeExact"):
+            # a (computed) landscape object handed over as an operand: its public state
+            h.update(type(v).__name__.encode() + repr(getattr(v, "hom_deg", None)).encode())
+            if type(v).__name__ == "PersLandscapeApprox":
+                h.update(repr((float(v.start), float(v.stop), int(v.num_steps))).encode())
+                walk(np.asarray(v.values))
+            else:
+                walk(json_like(v.critical_pairs))
         elif hasattr(v, "toarray"):
             # sparse matrix: the stored structure is part of the caller's object, not only its dense value
             h.update(("sp:" + getattr(v, "format", "?") + repr(v.shape)).encode())
